@@ -1,5 +1,5 @@
 (* C19 Malformed data is always diagnosed in the error log *)
-From LD Require Import Base F32 Data Model Ops Bucket Eval EvalFacts Safety WellFormed Trace Transparent.
+From LD Require Import Base F32 Data Model Ops Bucket Eval EvalFacts Safety WellFormed Trace Transparent LogsConverse.
 
 Theorem C19_malformed_is_logged : forall re_ok re_match o E P c f out,
   o_logger o = true -> run re_ok re_match o E P c f = Done out ->
@@ -38,3 +38,18 @@ Theorem C19_bad_variation_names_the_flag : forall o f i r st,
   (Done (err_detail KMalformed), mkst (s_cache st) (s_status st) (OLog (f_key f) (EBadVariation i) :: s_trace st)).
 Proof. exact bad_variation_names_the_flag. Qed.
 Print Assumptions C19_bad_variation_names_the_flag.
+
+(* ---- nothing is written without cause ----
+   With a recorder configured (so that nested results are observable): a line in the log of a call whose own result is not
+   MALFORMED_FLAG means that a prerequisite evaluation recorded during that call was MALFORMED_FLAG. accounted states the same
+   for every nested evaluation: lines written during it are paid for by its own bad result or by a bad recorded event. *)
+Theorem C19_every_line_is_accounted_for : forall re_ok re_match o E P c f out k e,
+  o_recorder o = true -> run re_ok re_match o E P c f = Done out -> In (OLog k e) (out_trace out) ->
+  rs_kind (d_reason (out_detail out)) = RError KMalformed \/
+  exists ev, In (OEvent ev) (out_trace out) /\ bad_detail (ev_detail ev).
+Proof. exact every_line_is_accounted_for. Qed.
+Print Assumptions C19_every_line_is_accounted_for.
+Theorem C19_nested_lines_are_accounted_for : forall re_ok re_match o E P c,
+  o_recorder o = true -> forall fuel chain f, accounted (eval_flag re_ok re_match o E P c fuel chain f).
+Proof. exact accounted_eval_flag. Qed.
+Print Assumptions C19_nested_lines_are_accounted_for.
